@@ -35,3 +35,49 @@ def build(name, release=False):
 def run(name, args, release=False, timeout=120, stdin=None):
     exe = build(name, release)
     return sh([exe] + [str(a) for a in args], timeout=timeout, stdin=stdin)
+
+
+EVAL_DEPS = {
+    'base': 'wow_world_base = { path = "{REPO}/wow_world_base", features = ["vanilla", "tbc", "wrath", "shared", "extended"] }\n',
+    'world': 'wow_world_base = { path = "{REPO}/wow_world_base", features = ["vanilla", "tbc", "wrath", "shared", "extended"] }\nwow_world_messages = { path = "{REPO}/wow_world_messages", default-features = false, features = ["vanilla", "tbc", "wrath", "sync", "encryption"] }\n',
+    'login': 'wow_login_messages = { path = "{REPO}/wow_login_messages", default-features = false, features = ["sync"] }\n',
+}
+
+
+def eval_cases(dep_key, cases, prelude='', timeout=600):
+    """cases: list of (case_id, rust_block) where rust_block is an expression of type String evaluated inside
+    catch_unwind. Builds one program against the repo's current tree, runs it in dev and release profile.
+    Returns {case_id: (dev_output, release_output)}; output 'PANIC: <msg>' when the block panicked."""
+    name = 'eval_' + dep_key
+    d = os.path.join(WORK, 'native', name)
+    os.makedirs(os.path.join(d, 'src'), exist_ok=True)
+    toml = '[package]\nname = "%s"\nversion = "0.0.0"\nedition = "2021"\n\n[workspace]\n\n[dependencies]\n%s\n[profile.release]\noverflow-checks = false\ndebug-assertions = false\n' % (
+        name, EVAL_DEPS[dep_key].replace('{REPO}', REPO))
+    p = os.path.join(d, 'Cargo.toml')
+    if not os.path.exists(p) or open(p).read() != toml:
+        open(p, 'w').write(toml)
+    body = ['#![allow(unused, non_snake_case, unused_mut, clippy::all)]', prelude, 'fn main() {',
+            '    std::panic::set_hook(Box::new(|_| {}));']
+    for i, (cid, block) in enumerate(cases):
+        body.append('    { let r = std::panic::catch_unwind(|| -> String { %s });' % block)
+        body.append('      match r { Ok(s) => println!("CASE %d {}", s), Err(e) => { let m = if let Some(s) = e.downcast_ref::<String>() { s.clone() } else if let Some(s) = e.downcast_ref::<&str>() { s.to_string() } else { String::new() }; println!("CASE %d PANIC: {}", m.replace("\n", " ")) } } }' % (i, i))
+    body.append('}')
+    open(os.path.join(d, 'src', 'main.rs'), 'w').write('\n'.join(body) + '\n')
+    lock = os.path.join(REPO, 'Cargo.lock')
+    if os.path.exists(lock) and not os.path.exists(os.path.join(d, 'Cargo.lock')):
+        shutil.copy(lock, os.path.join(d, 'Cargo.lock'))
+    outs = []
+    for rel in (False, True):
+        cmd = ['cargo', 'build', '--offline', '-q'] + (['--release'] if rel else [])
+        r = sh(cmd, cwd=d, timeout=3600)
+        if r.returncode != 0:
+            raise RuntimeError('replay program failed to build:\n%s' % r.stdout[-4000:])
+        exe = os.path.join(d, 'target', 'release' if rel else 'debug', name)
+        r = sh([exe], timeout=timeout)
+        res = {}
+        for line in (r.stdout or '').splitlines():
+            if line.startswith('CASE '):
+                parts = line.split(' ', 2)
+                res[int(parts[1])] = parts[2] if len(parts) > 2 else ''
+        outs.append(res)
+    return {cid: (outs[0].get(i), outs[1].get(i)) for i, (cid, _) in enumerate(cases)}
